@@ -2421,7 +2421,44 @@ async def tree_started_in_a_nested_context_belongs_to_it():
     return ok, f"{out}"
 
 
-SCENARIOS = {f.__name__: f for f in (tree_started_in_a_nested_context_belongs_to_it, factory_for_an_iterable_class_releases_its_waiter, component_service_task_keeps_its_teardown_action, callback_registered_from_elsewhere_runs_in_its_own_context, task_started_on_an_outer_context_belongs_to_it, cancelled_exit_with_a_task_still_inside_is_reported, injected_coroutine_in_a_component_waits_like_the_explicit_lookup, same_configuration_object_started_twice, injected_lookups_happen_in_signature_order, closing_anothers_context_leaves_the_closers_own_alone, lookup_made_inside_awaited_after_the_block_is_refused, overridden_default_types_need_not_exist, queued_event_keeps_its_source, failed_adds_of_unusual_shapes_change_nothing, partly_shadowed_factory_releases_its_waiter, refused_resource_of_a_failed_start_leaves_no_callback, registration_during_a_service_tasks_stop, annotations_mean_what_they_say, default_name_is_remapped_only_while_starting, parent_is_the_current_context_itself, refused_entry_changes_nothing, left_from_another_task_is_closed_all_the_same, factories_waiting_on_each_other_complete, nested_tree_publications_release_waiters, timeout_watches_every_tree, every_registration_of_a_component_is_torn_down, generic_alias_types_are_found_by_every_lookup, optional_injection_is_the_optional_lookup, start_value_and_failed_starts, hard_coded_kwargs_reach_the_child_as_they_are,
+async def context_created_in_a_nested_component_has_a_plain_parent():
+    """C12: a newly created context takes the context current at its creation as its parent -- inside a component that
+    is the context the tree was started in (the component's view of it is never a parent), also for a tree started
+    by start_component() from inside another component's start(); a task spawned there inherits the same"""
+    from asphalt.core import Component, start_component
+    seen = {}
+
+    class Inner(Component):
+        async def start(self):
+            c = Context()
+            seen["inner_parent_is_surrounding"] = c.parent is seen["surrounding"]
+            async with c:
+                seen["inner_current"] = current_context() is c
+
+                async def task():
+                    seen["task_parent"] = Context().parent is c
+                async with anyio.create_task_group() as tg:
+                    tg.start_soon(task)
+            seen["inner_restored_view"] = type(current_context()).__name__ == "ComponentContext"
+
+    class Host(Component):
+        async def start(self):
+            seen["host_parent_is_surrounding"] = Context().parent is seen["surrounding"]
+            await start_component(Inner, {}, timeout=2)
+
+    class Root(Component):
+        def __init__(self):
+            self.add_component("host/alt", Host)
+    async with Context() as surrounding:
+        seen["surrounding"] = surrounding
+        await start_component(Root, {}, timeout=3)
+    seen.pop("surrounding")
+    want = {"inner_parent_is_surrounding": True, "inner_current": True, "task_parent": True, "inner_restored_view": True,
+            "host_parent_is_surrounding": True}
+    return seen == want, f"{seen}"
+
+
+SCENARIOS = {f.__name__: f for f in (context_created_in_a_nested_component_has_a_plain_parent, tree_started_in_a_nested_context_belongs_to_it, factory_for_an_iterable_class_releases_its_waiter, component_service_task_keeps_its_teardown_action, callback_registered_from_elsewhere_runs_in_its_own_context, task_started_on_an_outer_context_belongs_to_it, cancelled_exit_with_a_task_still_inside_is_reported, injected_coroutine_in_a_component_waits_like_the_explicit_lookup, same_configuration_object_started_twice, injected_lookups_happen_in_signature_order, closing_anothers_context_leaves_the_closers_own_alone, lookup_made_inside_awaited_after_the_block_is_refused, overridden_default_types_need_not_exist, queued_event_keeps_its_source, failed_adds_of_unusual_shapes_change_nothing, partly_shadowed_factory_releases_its_waiter, refused_resource_of_a_failed_start_leaves_no_callback, registration_during_a_service_tasks_stop, annotations_mean_what_they_say, default_name_is_remapped_only_while_starting, parent_is_the_current_context_itself, refused_entry_changes_nothing, left_from_another_task_is_closed_all_the_same, factories_waiting_on_each_other_complete, nested_tree_publications_release_waiters, timeout_watches_every_tree, every_registration_of_a_component_is_torn_down, generic_alias_types_are_found_by_every_lookup, optional_injection_is_the_optional_lookup, start_value_and_failed_starts, hard_coded_kwargs_reach_the_child_as_they_are,
                                      overriding_signal_has_its_own_event_class, second_half_runs_at_the_outer_teardown, rejected_add_registers_no_callback,
                                      wait_finished_means_completely_finished, dead_iterator_inside_its_block_disturbs_nobody,
                                      racing_lookups_generate_once, failing_factory_leaves_the_current_context_alone,
